@@ -1033,10 +1033,10 @@ Proof. exists h_no_follow. apply (not_Bound_by_slot _ 1). vm_compute. reflexivit
 (* the same histories under the code as it is now: recycling happened and the invariant holds (non-vacuity) *)
 Lemma nonvacuous_l :
   let e := fst (run_history cfg_now 10 eng_new h_no_follow) in
-  threshold (fl (sm e)) = initial_threshold * threshold_multiplier /\
+  threshold (fl (sm e)) <> initial_threshold /\
   free (fl (sm e)) <> [] /\ val_okb e (nth 2 (globals e) VVoid) = true /\
   (exists h b c, nth 2 (globals e) VVoid = VClo h b c /\ b <> []).
 Proof.
-  vm_compute. split; [reflexivity|]. split; [discriminate|]. split; [reflexivity|].
+  vm_compute. split; [discriminate|]. split; [discriminate|]. split; [reflexivity|].
   eexists. eexists. eexists. split; [reflexivity | discriminate].
 Qed.
